@@ -15,6 +15,7 @@ static bool IsIName(const std::string & s) {if ((s.size() < 2)||(s[0] != 'I')) r
 static bool ClauseMatch(const std::string & pat, const std::string & name)   // the pattern menu of the model: "*", comma list of literals, literal
 {
    if (pat == "*") return true;
+   if (pat.find('\\') != std::string::npos) {std::string u; for (size_t i=0; i<pat.size(); i++) {if ((pat[i] == '\\')&&(i+1 < pat.size())) i++; u += pat[i];} return u == name;}   // escaped token characters: the literal name
    size_t b = 0; while (true) {size_t c = pat.find(',', b); if (pat.substr(b, (c == std::string::npos) ? std::string::npos : c-b) == name) return true; if (c == std::string::npos) break; b = c+1;}
    return false;
 }
@@ -54,13 +55,21 @@ struct Ranker {
 };
 
 struct IsoWorld {
-   World w; Client * s[3]; Client * obs;
+   World w; Client * s[3]; Client * obs; Client * obs0; int bystanderSeq;
    std::vector<std::string> viol, drift;
    std::set<std::pair<std::string, std::string> > hush;   // (session, node path): its mirror may lag for this node because of a QUIET change (documented: "suppress the node-updated-notifications"), until it agrees again
    void V(const std::string & x) {if (viol.size() < 8) viol.push_back(x);}
    void D(const std::string & x) {if (drift.size() < 8) drift.push_back(x);}
 
-   IsoWorld() {s[0] = w.Add("s1", "hA"); s[1] = w.Add("s2", "hA"); s[2] = w.Add("s3", "hB"); obs = w.Add("obs", OBS_HOST); w.Settle();}
+   IsoWorld() : bystanderSeq(0) {obs0 = w.Add("obs0", OBS_HOST); s[0] = w.Add("s1", "hA"); s[1] = w.Add("s2", "hA"); s[2] = w.Add("s3", "hB"); obs = w.Add("obs", OBS_HOST); w.Settle();}
+   // a connection ends while OTHER clients' commands are waiting to be handled in the same pass of the server's event loop: one bystander attached before, one
+   // after every model session creates a node (matched by the usual "*" subscriptions) - their bytes are in the sockets, the server has not been pumped yet
+   void CloseAmidTraffic(Client * d)
+   {
+      char nm[24]; snprintf(nm, sizeof(nm), "k%d", ++bystanderSeq);
+      Client * by[2] = {obs0, obs}; for (int i=0; i<2; i++) if ((by[i]->connected)&&(w.Attached(by[i]))) {MessageRef m = Msg(PR_COMMAND_SETDATA); m()->AddMessage(nm, Msg(21)); m()->AddMessage((std::string(nm)+"/x").c_str(), Msg(22)); w.Send(by[i], m); by[i]->Flush();}
+      w.Close(d); w.Settle();
+   }
    Client * By(const std::string & n) {for (int i=0; i<3; i++) if (s[i]->name == n) return s[i]; return NULL;}
    std::string NameOfId(const std::string & id) const {for (int i=0; i<3; i++) if (s[i]->id == id) return s[i]->name; return id;}
    std::string IdOfName(const std::string & n) const {for (int i=0; i<3; i++) if (s[i]->name == n) return s[i]->id; return n;}
@@ -344,7 +353,7 @@ static void DoCommandStep(IsoWorld & iw, const J & step, FullView & before, Full
 {
    const std::string who = step["who"].str(); Client * actor = iw.By(who); const J & cmd = step["cmd"];
    if ((!actor)||(!actor->connected)) {iw.D(std::string(when) + ": acting session is not connected"); after = before; return;}
-   for (int i=0; i<3; i++) iw.s[i]->inbox.clear(); iw.obs->inbox.clear();
+   for (int i=0; i<3; i++) iw.s[i]->inbox.clear(); iw.obs->inbox.clear(); iw.obs0->inbox.clear(); iw.obs0->mirror.clear();
    MessageRef m = iw.Build(cmd, actor);
    SetStage(when);
    iw.w.Send(actor, m); iw.w.Settle();
@@ -406,7 +415,7 @@ static void Probe(IsoWorld & iw, const J & expState, const char * when)
          for (size_t q=0; q<pp.size(); q++) if ((PatMatch(pp[q].pat, SplitPath(path)))&&((pp[q].f == 0)||(pp[q].f == pay[k]))) sel = true;
          const bool has = (c->mirror.count(path) > 0)&&(c->mirror[path] == pay[k]);
          if (sel != has) iw.V(std::string(when) + ": probe node " + rel[k] + " set by the observer " + (has ? "WAS" : "was NOT") + " reported to " + c->name + ", whose subscriptions " + (sel ? "select it" : "do not select it")); } }
-   {MessageRef m = Msg(PR_COMMAND_REMOVEDATA); m()->AddString(PR_NAME_KEYS, "*"); iw.w.Send(iw.obs, m); iw.w.Settle();}
+   {MessageRef m = Msg(PR_COMMAND_REMOVEDATA); m()->AddString(PR_NAME_KEYS, "*"); iw.w.Send(iw.obs, m); iw.w.Send(iw.obs0, GetMessageFromPool(*m())); iw.w.Settle();}
    for (int i=0; i<3; i++) { Client * c = iw.s[i]; if ((!c->connected)||(!iw.w.Attached(c))) continue;
       for (int k=0; k<3; k++) {const std::string path = iw.obs->root + "/" + rel[k]; if (c->mirror.count(path)) {iw.V(std::string(when) + ": removal of probe node " + rel[k] + " was not reported to " + c->name); c->mirror.erase(path);}} }
 }
@@ -440,7 +449,7 @@ static void IsoBehaviour(const J & beh, std::mt19937 & rng)
          SetStage(when);
          if (beh["partial"].truthy()) { MessageRef pm = Msg(PR_COMMAND_SETDATA); pm()->AddMessage("late", Msg(5)); pm()->AddMessage("late/x", Msg(6)); const std::string wb = Wire(*pm());
             const size_t k = 1 + (rng() % (wb.size()-1)); d->Flush(); ssize_t r = write(d->sock.GetFileDescriptor(), wb.data(), k); (void) r; if (rng() & 1) iw.w.PumpOnce(); }
-         iw.w.Close(d); iw.w.Settle();
+         iw.CloseAmidTraffic(d);
          nxt = FullView(); TakeView(iw, nxt, all);
          CheckErased(iw, d->name, &cur, nxt, when);
          if (st.has("st")) iw.CompareWithModel(nxt.sn, st["st"], d->name, true, when);
@@ -471,7 +480,7 @@ static void IsoAllCuts(const J & beh, int everyNth)
       const int fd = d->sock.GetFileDescriptor();
       if (mode == 0) {ssize_t r = write(fd, stream.data(), cut); (void) r; if (cut & 1) iw.w.PumpOnce();}
       else for (size_t i=0; i<cut; i++) {ssize_t r = write(fd, &stream[i], 1); (void) r; if ((i % everyNth) == 0) iw.w.PumpOnce();}
-      iw.w.Close(d); iw.w.Settle();
+      iw.CloseAmidTraffic(d);
       // clients that lost subscriptions of their own do not exist here: only the departing session unsubscribes
       TakeView(iw, after, rest);
       {Snap none; for (size_t i=0; i+1<ns; i++) iw.NoteQuiet(steps[i]["cmd"], who, none, after.sn);}     // quiet commands in the stream: the mirrors may lag for the nodes they touched
@@ -504,7 +513,8 @@ static int IsoRandom(int argc, char ** argv)
    if (argc < 9) return 2;
    std::vector<J> menuFile; if ((!ReadCases(argv[2], menuFile))||(menuFile.empty())) {fprintf(stderr, "cannot read the menu %s\n", argv[2]); return 3;}
    const J & menu = menuFile[0]["menu"]; const J init = menuFile[0]["init"];
-   const int nh = atoi(argv[3]), nsteps = atoi(argv[4]); const unsigned seed = (unsigned) atoi(argv[5]);
+   int nh = atoi(argv[3]), nsteps = atoi(argv[4]); const unsigned seed = (unsigned) atoi(argv[5]);
+   std::vector<J> scripts; if (argc > 9) {if (!ReadCases(argv[9], scripts)) {fprintf(stderr, "cannot read the scripts %s\n", argv[9]); return 3;} nh = (int) scripts.size(); nsteps = 1000;}   // directed histories: [{who, ci} | {who, a:"Depart", partial}]
    if (!OpenReport(argv[6])) return 3;
    FILE * tf = fopen(argv[7], "w"); if (!tf) return 3; const int ntr = atoi(argv[8]);
    const double t0 = Now(); long traces = 0, lines = 0;
@@ -518,16 +528,20 @@ static int IsoRandom(int argc, char ** argv)
       for (int k=0; (k<nsteps)&&(iw.viol.empty()); k++) {
          std::vector<Client *> alive; for (int i=0; i<3; i++) if ((iw.s[i]->connected)&&(iw.w.Attached(iw.s[i]))) alive.push_back(iw.s[i]);
          if (alive.empty()) break;
-         Client * actor = alive[rng() % alive.size()]; J st = J::Obj(); char when[96]; g_isoSteps++;
-         if ((k > 2)&&((rng() % 12) == 0)) { // a departure, half the time in the middle of a Message
+         const J * sc = NULL; if (!scripts.empty()) {if ((size_t) k >= scripts[h]["steps"].size()) break; sc = &scripts[h]["steps"][(size_t) k];}
+         Client * actor = sc ? iw.By((*sc)["who"].str()) : alive[rng() % alive.size()]; J st = J::Obj(); char when[96];
+         if ((!actor)||(!actor->connected)||(!iw.w.Attached(actor))) break;
+         g_isoSteps++;
+         bool depart = sc ? ((*sc)["a"].str() == "Depart") : ((k > 2)&&((rng() % 12) == 0)); bool partial = sc ? (*sc)["partial"].truthy() : ((rng() & 1) != 0);
+         if (depart) { // a departure, half the time in the middle of a Message
             snprintf(when, sizeof(when), "step %d (Depart %s)", k+1, actor->name.c_str()); SetStage(when);
             st.set("a", J::Str("Depart")).set("who", J::Str(actor->name)); hist.push(st); SetCur(mj::ToString(hist));
-            if (rng() & 1) {MessageRef pm = Msg(PR_COMMAND_SETDATA); pm()->AddMessage("late", Msg(5)); const std::string wb = Wire(*pm()); const size_t n = 1 + (rng() % (wb.size()-1)); actor->Flush(); ssize_t r = write(actor->sock.GetFileDescriptor(), wb.data(), n); (void) r; if (rng() & 1) iw.w.PumpOnce();}
-            iw.w.Close(actor); iw.w.Settle();
+            if (partial) {MessageRef pm = Msg(PR_COMMAND_SETDATA); pm()->AddMessage("late", Msg(5)); const std::string wb = Wire(*pm()); const size_t n = 1 + (rng() % (wb.size()-1)); actor->Flush(); ssize_t r = write(actor->sock.GetFileDescriptor(), wb.data(), n); (void) r; if (rng() & 1) iw.w.PumpOnce();}
+            iw.CloseAmidTraffic(actor);
             // the remaining clients: nothing to prune (they did not unsubscribe)
             nxt = FullView(); TakeView(iw, nxt, all);
             CheckErased(iw, actor->name, &cur, nxt, when); cur = nxt; }
-         else { const size_t ci = rng() % menu.size();
+         else { const size_t ci = sc ? (size_t) ((*sc)["ci"].i()-1) : (rng() % menu.size());
             snprintf(when, sizeof(when), "step %d (Cmd %s #%zu)", k+1, actor->name.c_str(), ci+1);
             st.set("a", J::Str("Cmd")).set("who", J::Str(actor->name)).set("ci", J::Int((int64_t) ci+1)).set("cmd", menu[ci]); hist.push(st); SetCur(mj::ToString(hist));
             nxt = FullView(); DoCommandStep(iw, st, cur, nxt, when); cur = nxt; }
